@@ -27,6 +27,10 @@ def snap(x):
     return g if abs(f - g) < F(1, 10 ** 12) else f
 
 
+class Budget(Exception):
+    """the enumeration exceeded the harness's own leaf budget — says nothing about the code under test"""
+
+
 class Explorer:
     def __init__(self, maxdepth, maxleaves=200000):
         self.maxdepth, self.maxleaves = maxdepth, maxleaves
@@ -58,7 +62,7 @@ class Explorer:
             agg[out] = agg.get(out, F(0)) + self.prob
             leaves += 1
             if leaves > self.maxleaves:
-                raise RuntimeError("too many leaves")
+                raise Budget("too many leaves")
             tr = self.trail
             nxt = None
             while tr:
